@@ -2,7 +2,10 @@
 Proof: lean/Props/C05.lean (encImpl = reference encoder, decoder round trip with fuel adequacy, content
 length, separator split, type tables).  Tie: hex of real .dods bodies vs `encImpl`, client decoding of
 reference-encoded bytes vs `decImpl`, Content-Length vs `calcSize`, split vs `splitBody`.  Oracle: an
-independent Python reference encoder and the source values."""
+independent Python reference encoder and the source values.  Third round: the reference bytes also go through
+every streaming reader of the client (StreamReader under several chunkings, open_dods_url, SequenceProxy.__iter__),
+compared with the model's `decStream` / `openDodsUrl` / `seqProxy` and with the source values; the real decoder's
+logged read sizes are compared with the model's read trace."""
 import json
 
 import numpy as np
@@ -82,6 +85,20 @@ def serve(t, d, ce=""):
     return app, r
 
 
+def read_trace(dds_text, xdr):
+    """the sizes of the `read` calls the real decoder issues on `xdr` (the zero-length ones included), up to and
+    including the one that failed"""
+    from pydap.handlers.dap import unpack_dap2_data
+    from pydap.parsers.dds import dds_to_dataset
+
+    tr = X.TracingBytesReader(xdr)
+    try:
+        unpack_dap2_data(tr, dds_to_dataset(dds_text))
+    except Exception:
+        pass
+    return tr.reads
+
+
 def decode_with_client(dds_text, xdr):
     """the client's decoder on a byte string: unpack_dap2_data over a BytesReader, as
     BaseProxyDap2.__getitem__ does"""
@@ -95,7 +112,100 @@ def decode_with_client(dds_text, xdr):
     return dataset, values, reader.data
 
 
-def judge(t, d, tail=b""):
+URL = "http://localhost:8001/d"
+
+
+def stream_paths(t, d, ref, tail, dds_text, heavy=True):
+    """the reference-encoded response through every *streaming* reader of the client, delivered in several
+    chunkings: `StreamReader` directly, `open_dods_url` (application and requests transport) and, for every
+    top-level sequence, `SequenceProxy.__iter__`.  Yields (path, kind, tmpl, model_line, outcome) with
+    outcome = ("ok", data, rest|None, type problems) | ("err", text); kind "full" = the whole dataset,
+    ("seq", i) = variable i; model_line = the same delivery for the Lean model"""
+    from pydap.client import open_dods_url
+    from pydap.handlers.dap import SequenceProxy, unpack_dap2_data, unpack_sequence
+    from pydap.lib import StreamReader
+    from pydap.parsers.dds import dds_to_dataset
+
+    seed = len(ref) * 31 + len(tail)
+    blob = ref + tail
+    ts = X.tmpl_sexp(t)
+    hexs = lambda chunks: "(%s)" % " ".join(hexb(c) for c in chunks)
+    tr = X.TracingBytesReader(blob)
+    parsed = dds_to_dataset(dds_text)      # decoding does not change the declaration: parsed once
+    try:
+        unpack_dap2_data(tr, parsed)
+    except Exception:
+        pass
+    # -- StreamReader over an iterator of chunks (what open_dods_url / SequenceProxy wrap the body in)
+    for how in X.CHUNKINGS:
+        chunks = X.chunk(blob, how, seed, tr.reads)
+        try:
+            it = iter(chunks)
+            reader = StreamReader(it)
+            values = unpack_dap2_data(reader, parsed)
+            probs = []
+            got = X.canon(t, X.decoded_to_raw(values, t), probs)
+            rest = bytes(reader.buf) + b"".join(it)
+            out = ("ok", got, rest, probs)
+        except Exception as e:
+            out = ("err", "%s: %s" % (type(e).__name__, str(e)[:120]))
+        yield ("StreamReader/" + how, "full", t, "xdr-dec-sr %s %s" % (ts, hexs(chunks)), out)
+    # -- open_dods_url: DDS + Data: + bytes served by an application / through the requests transport
+    body = dds_text.encode("ascii") + b"Data:\n" + blob
+    transports = [("app", how) for how in ("whole", "bytes", "last1")] + ([("session", "whole"), ("session-gzip", "whole")] if heavy else [])
+    for tp, how in transports:
+        app = X.CannedApp(dds_text, lambda q: body, chunker=lambda b, how=how: X.chunk(b, how, seed))
+        try:
+            if tp == "app":
+                ds = open_dods_url(URL + ".dods", application=app)
+            else:
+                ds = open_dods_url(URL + ".dods", session=X.wsgi_session(app, gz=tp.endswith("gzip")))
+            probs = []
+            raw = [X.read_decoded_var(ds[c[3] if c[0] == "b" else c[1]], c) for c in t[2]]
+            out = ("ok", X.canon(t, raw, probs), None, probs)
+        except Exception as e:
+            out = ("err", "%s: %s" % (type(e).__name__, str(e)[:120]))
+        yield ("open_dods_url/%s/%s" % (tp, how), "full", t, "xdr-url %s %s" % (ts, hexb(body)), out)
+    # -- SequenceProxy.__iter__ for every top-level sequence (its own response: DDS of the projection + data)
+    for i, (c, x) in enumerate(zip(t[2], d)):
+        if c[0] != "sq":
+            continue
+        tt = ("st", t[1], [c])
+        sdds = X.ref_dds(tt)
+        sref = X.ref_enc(c, x)
+        sbody = sdds.encode("ascii") + b"Data:\n" + sref + tail
+        k = len(sdds) + 6
+        hows = list(X.CHUNKINGS) + ["cut@%d" % k, "cut@%d" % (k - 1), "cut@%d" % (k - 3)]
+        trs = X.TracingBytesReader(sref + tail)
+        sparsed = dds_to_dataset(sdds)
+        template = sparsed[c[1]]
+        try:
+            list(unpack_sequence(trs, template))
+        except Exception:
+            pass
+        for how in hows + (["session", "session-gzip"] if heavy else []):
+            if how.startswith("cut@"):
+                n = int(how[4:])
+                chunker = lambda b, n=n: [b[:n], b[n:]]
+            elif how == "reads":
+                chunker = lambda b: [b[:k]] + X.chunk(b[k:], "reads", seed, trs.reads)
+            else:
+                chunker = lambda b, how=how: X.chunk(b, how if not how.startswith("session") else "whole", seed)
+            app = X.CannedApp(sdds, lambda q: sbody, chunker=chunker)
+            try:
+                kw = {"application": app} if not how.startswith("session") else \
+                    {"session": X.wsgi_session(app, gz=how.endswith("gzip"))}
+                proxy = SequenceProxy(URL, template, **kw)
+                rows = list(X.materialise_rows(iter(proxy), c))
+                probs = []
+                out = ("ok", X.canon(c, rows, probs), None, probs)
+            except Exception as e:
+                out = ("err", "%s: %s" % (type(e).__name__, str(e)[:120]))
+            chunks = chunker(sbody) if not how.startswith("session") else X.chunk(sbody, "bytes")
+            yield ("SequenceProxy/" + how, ("seq", i), c, "xdr-seqproxy %s %s" % (X.tmpl_sexp(c), hexs(chunks)), out)
+
+
+def judge(t, d, tail=b"", heavy=True):
     """direct oracle on the implementation for one dataset; returns (failures, artefacts).
     failures: list of (what, observed, expected)"""
     fails = []
@@ -145,6 +255,20 @@ def judge(t, d, tail=b""):
     except Exception as e:
         art["decoded"] = None
         fails.append(("client fails on reference-encoded bytes: %s" % type(e).__name__, repr(e)[:200], pack(d)))
+    art["trace"] = read_trace(dds_text, ref + tail)
+    # ---- decoder direction, streaming readers: the same bytes in pieces ----------------------------------
+    art["streams"] = []
+    for path, kind, tt, line, out in stream_paths(t, d, ref, tail, dds_text, heavy):
+        exp = d if kind == "full" else d[kind[1]]
+        if out[0] == "err":
+            fails.append(("%s fails on a reference-encoded response: %s" % (path, out[1].split(":")[0]), out[1], pack(exp)))
+        elif out[1] != exp:
+            fails.append(("%s decodes a reference-encoded response to other values" % path, pack(out[1]), pack(exp)))
+        elif out[2] is not None and out[2] != tail:
+            fails.append(("%s leaves other bytes unread than follow the encoding" % path, out[2].hex(), tail.hex()))
+        elif out[3]:
+            fails.append(("%s returns another type or shape" % path, out[3][:3], "declared type/shape"))
+        art["streams"].append((path, kind, tt, line, out))
     return fails, art
 
 
@@ -160,8 +284,8 @@ def tags_of(t):
     return out
 
 
-def check_dataset(ctx, t, d, cases, where, tail=b""):
-    fails, art = judge(t, d, tail)
+def check_dataset(ctx, t, d, cases, where, tail=b"", heavy=True):
+    fails, art = judge(t, d, tail, heavy)
     cls = classify(t, d)
     case = {"tmpl": pack(t), "data": pack(d), "tail": pack(tail)}
     size = len(json.dumps(case))
@@ -184,6 +308,18 @@ def check_dataset(ctx, t, d, cases, where, tail=b""):
     else:
         impl = "(err)"
     cases.append(("xdr-dec %s %s" % (ts, hexb(art["ref"] + tail)), impl, meta))
+    cases.append(("xdr-trace %s %s" % (ts, hexb(art["ref"] + tail)), " ".join(str(n) for n in art["trace"]), meta))
+    ctx.tags["last-read:" + ("zero" if art["trace"] and art["trace"][-1] == 0 else "nonzero")] += 1
+    for path, kind, tt, line, out in art["streams"]:
+        m2 = dict(meta, path=path)
+        if out[0] == "err":
+            impl = "(err)"
+        elif out[2] is not None:
+            impl = "(ok %s %s)" % (X.data_sexp(tt, out[1]), hexb(out[2]))
+        else:
+            impl = "(ok %s)" % X.data_sexp(tt, out[1])
+        cases.append((line, impl, m2))
+        ctx.tags["stream:" + path.split("@")[0]] += 1
     tg = tags_of(t)
     for g in set(tg):
         ctx.tags[where + ":" + g] += 1
@@ -205,10 +341,54 @@ def check_malformed(ctx, t, d, rng, cases):
         dataset, values, rest = decode_with_client(dds_text, blob)
         got = X.canon(t, X.decoded_to_raw(values, t))
         impl = "(ok %s %s)" % (X.data_sexp(t, got), hexb(rest))
-    except Exception:
-        impl = "(err)"
-    cases.append(("xdr-dec %s %s" % (X.tmpl_sexp(t), hexb(blob)), impl, {"tmpl": pack(t), "cut": cut, "cls": "malformed"}))
+    except Exception as e:
+        # C05_truncated_rejected: the error is the reader's end-of-data error, nothing else
+        impl = "(err short)" if isinstance(e, EOFError) else "(err other)"
+    cases.append(("xdr-dec-e %s %s" % (X.tmpl_sexp(t), hexb(blob)), impl, {"tmpl": pack(t), "cut": cut, "cls": "malformed"}))
+    cases.append(("xdr-trace %s %s" % (X.tmpl_sexp(t), hexb(blob)), " ".join(str(n) for n in read_trace(dds_text, blob)),
+                  {"tmpl": pack(t), "cut": cut, "cls": "malformed"}))
+    # the cut stream through a StreamReader: must raise as well (model: `(err)`), for two chunkings
+    from pydap.handlers.dap import unpack_dap2_data
+    from pydap.lib import StreamReader
+    from pydap.parsers.dds import dds_to_dataset
+    for how in ("whole", "random"):
+        chunks = X.chunk(blob, how, cut)
+        try:
+            it = iter(chunks)
+            reader = StreamReader(it)
+            values = unpack_dap2_data(reader, dds_to_dataset(dds_text))
+            got = X.canon(t, X.decoded_to_raw(values, t))
+            impl2 = "(ok %s %s)" % (X.data_sexp(t, got), hexb(bytes(reader.buf) + b"".join(it)))
+            ctx.oracle_fail("a truncated reference stream decodes through StreamReader/" + how,
+                            {"tmpl": pack(t), "data": pack(d), "cut": cut, "how": how}, impl2[:200], "an exception")
+        except Exception:
+            impl2 = "(err)"
+        cases.append(("xdr-dec-sr %s (%s)" % (X.tmpl_sexp(t), " ".join(hexb(c) for c in chunks)), impl2,
+                      {"tmpl": pack(t), "cut": cut, "cls": "malformed"}))
     ctx.tags["malformed:" + impl[:4]] += 1
+
+
+def check_corrupted(ctx, t, d, rng, cases):
+    """one byte of a reference stream overwritten: the real decoder and the model must agree on value / rest /
+    class of error (end of data vs anything else).  Streams on which the decoder meets a negative length word
+    are skipped (what `read` does with a negative count is outside the model)."""
+    ref = X.ref_enc(t, d)
+    if not ref:
+        return
+    i = rng.randrange(len(ref))
+    blob = ref[:i] + bytes([rng.choice([0, 1, 2, 0x5a, 0x7f, 0x80, 0xa5, 0xff])]) + ref[i + 1:]
+    dds_text = X.ref_dds(t)
+    if any(n < 0 for n in read_trace(dds_text, blob)):
+        ctx.tags["corrupted:skipped-negative-length"] += 1
+        return
+    try:
+        dataset, values, rest = decode_with_client(dds_text, blob)
+        got = X.canon(t, X.decoded_to_raw(values, t))
+        impl = "(ok %s %s)" % (X.data_sexp(t, got), hexb(rest))
+    except Exception as e:
+        impl = "(err short)" if isinstance(e, EOFError) else "(err other)"
+    cases.append(("xdr-dec-e %s %s" % (X.tmpl_sexp(t), hexb(blob)), impl, {"tmpl": pack(t), "at": i, "cls": "malformed", "corrupted": True}))
+    ctx.tags["corrupted:" + impl[:10].strip()] += 1
 
 
 def check_projection(ctx, t, d, rng, cases):
@@ -287,16 +467,22 @@ def explore(ctx, tier, search=False):
             check_dataset(ctx, t, d, cases, "focused")
             if not X.has_seq(t):
                 break
+    # what the decoder reads LAST decides whether its final read has length 0: every kind of last variable
+    for kind, t, d in X.last_variable_datasets(rng, ctx.budget(8, 60)):
+        check_dataset(ctx, t, d, cases, "last")
+        ctx.tags["last-variable:" + kind] += 1
     n = ctx.budget(2500, 40000) * (3 if search else 1)
     for i in range(n):
         t = X.gen_dataset(rng)
         d = X.gen_data(rng, t)
         tail = b"" if rng.random() < 0.6 else bytes(rng.getrandbits(8) for _ in range(rng.randint(1, 9)))
-        check_dataset(ctx, t, d, cases, "random", tail)
+        check_dataset(ctx, t, d, cases, "random", tail, heavy=(i % 3 == 0))
         if i % 3 == 0:
             check_projection(ctx, t, d, rng, cases)
         if i % 4 == 0:
             check_malformed(ctx, t, d, rng, cases)
+        if i % 4 == 1:
+            check_corrupted(ctx, t, d, rng, cases)
         if len(cases) > 4000:
             flush(ctx, cases)
             cases = []
@@ -304,6 +490,13 @@ def explore(ctx, tier, search=False):
 
 
 def flush(ctx, cases):
+    # corrupted streams on which the model meets a negative length word are outside the model: dropped
+    cor = [c for c in cases if c[2].get("corrupted")]
+    if cor:
+        outs = common.run_driver([c[0] for c in cor])
+        drop = {id(c) for c, o in zip(cor, outs) if o == "(err neglen)"}
+        ctx.tags["corrupted:skipped-negative-length(model)"] += len(drop)
+        cases = [c for c in cases if id(c) not in drop]
     ctx.correspond("encImpl/decImpl/calcSize/splitBody vs responses.dods / handlers.dap", cases,
                    known_class=lambda m: m.get("cls") if m.get("cls") not in (None, "malformed") else None)
 
@@ -322,7 +515,11 @@ def run(ctx):
                 "zero extents, structures/grids to depth 3, numpy- and IterData-backed sequences with 0..4 records "
                 "and nested inner sequences), a focused family (every type x 9 shapes, every type as a flat-sequence "
                 "column on both backends and as an inner-sequence column), projections with hyperslabs, and a "
-                "truncated-stream family; a dataset is non-trivial when it has an array, a container or a sequence; "
+                "truncated-stream family and a corrupted-byte family; every reference-encoded response is decoded "
+                "through BytesReader, StreamReader x 5 chunkings, open_dods_url x {app x 3 chunkings, requests, gzip} and, "
+                "per top-level sequence, SequenceProxy.__iter__ x 10 deliveries; a family whose LAST variable is each of "
+                "16 kinds (strings of length 0/4/8/5, Byte[4/8/5], zero extent, scalar, sequence, ...) so that the decoder's "
+                "final read is zero-length; a dataset is non-trivial when it has an array, a container or a sequence; "
                 "distinct by (declaration, data)")
     ctx.assumptions = ["numpy astype/tobytes/frombuffer behave as modelled (two's complement wrap, IEEE bits kept)",
                        "the DDS text is opaque to the theorems (C07); the separator hypothesis of C05_dds_embedded "
@@ -344,6 +541,18 @@ def replay(payload):
     t = unpack_t(c["tmpl"])
     d = unpack_d(t, c["data"])
     tail = bytes.fromhex(c.get("tail", "x")[1:]) if isinstance(c.get("tail"), str) else b""
+    if "cut" in c:
+        from pydap.handlers.dap import unpack_dap2_data
+        from pydap.lib import StreamReader
+        from pydap.parsers.dds import dds_to_dataset
+        blob = X.ref_enc(t, d)[:c["cut"]]
+        try:
+            unpack_dap2_data(StreamReader(iter(X.chunk(blob, c["how"], c["cut"]))), dds_to_dataset(X.ref_dds(t)))
+        except Exception as e:
+            print("truncated stream raises %s" % type(e).__name__)
+            return True
+        print("FAILS: a reference stream cut at %d decodes through StreamReader/%s" % (c["cut"], c["how"]))
+        return False
     if "ce" in c:
         # replay the recorded constraint literally against the recorded reference encoding
         app, r = serve(t, d, c["ce"])
